@@ -43,6 +43,8 @@ pub struct Prog {
     pub shape: String,
     pub ends_with_ret: bool,
     pub has_fault_tail: bool,
+    /// length handed to init_stack (multiples of 16 and lengths that are 8 mod 16)
+    pub stack_len: u64,
 }
 
 struct Asm {
@@ -482,6 +484,40 @@ pub fn gen_prog(rng: &mut Rng, o: &ProgOpts) -> Prog {
     }
 }
 
+/// k returns that no call matches: push &Lk .. push &L1 ; ret ; L1: ret ; L2: ... ; Lk:
+/// followed by something traced (a jump, or a tight loop whose back edge repeats) so that the negative level is used.
+fn emit_unbalanced(a: &mut Asm, rng: &mut Rng) {
+    let kk = rng.range(1, 4) as usize;
+    let ls: Vec<usize> = (0..kk).map(|_| a.label()).collect();
+    for l in ls.iter().rev() {
+        a.b.push(0x68);
+        let pos = a.b.len();
+        a.b.extend_from_slice(&[0; 4]);
+        ABS32.with(|v| v.borrow_mut().push((pos, *l)));
+    }
+    for l in ls.iter() {
+        a.b.push(0xc3);
+        a.b.push(0x90);
+        a.bind(*l);
+    }
+    a.shape.push('R');
+    if rng.below(2) == 0 {
+        let l = a.label();
+        a.jmp8(l);
+        a.b.push(0x90);
+        a.bind(l);
+    } else {
+        // mov ecx,n ; L: dec ecx ; jne L
+        a.b.push(0xb9);
+        a.b.extend_from_slice(&(rng.range(2, 5) as u32).to_le_bytes());
+        let l = a.label();
+        a.bind(l);
+        a.b.extend_from_slice(&[0xff, 0xc9]);
+        a.jcc8(5, l);
+        a.shape.push('o');
+    }
+}
+
 fn gen_prog_inner(rng: &mut Rng, o: &ProgOpts) -> Prog {
     ABS.with(|v| v.borrow_mut().clear());
     ABS32.with(|v| v.borrow_mut().clear());
@@ -489,36 +525,34 @@ fn gen_prog_inner(rng: &mut Rng, o: &ProgOpts) -> Prog {
     let nfuncs = if o.calls { rng.below(3) as usize } else { 0 };
     let funcs: Vec<usize> = (0..nfuncs).map(|_| a.label()).collect();
     let nmain = rng.range(2, o.max_main);
+    // returns that no call matches: before everything else (the whole program then runs at a negative nesting
+    // level) or after the main block
+    let unbalanced = o.unbalanced_ret && rng.below(2) == 0;
+    let unbalanced_at_end = unbalanced && rng.below(2) == 0;
+    if unbalanced && !unbalanced_at_end {
+        emit_unbalanced(&mut a, rng);
+    }
     emit_block(&mut a, rng, o, &funcs, nmain, 0);
     let mut has_fault_tail = false;
     let mut ends_with_ret = false;
     let end = a.label();
-    if o.unbalanced_ret && rng.below(2) == 0 {
-        // k returns that no call matches: push &Lk .. push &L1 ; ret ; L1: ret ; L2: ... ; Lk:
-        let kk = rng.range(1, 4) as usize;
-        let ls: Vec<usize> = (0..kk).map(|_| a.label()).collect();
-        for l in ls.iter().rev() {
-            a.b.push(0x68);
-            let pos = a.b.len();
-            a.b.extend_from_slice(&[0; 4]);
-            ABS32.with(|v| v.borrow_mut().push((pos, *l)));
-        }
-        for (i, l) in ls.iter().enumerate() {
-            a.b.push(0xc3);
-            a.b.push(0x90);
-            a.bind(*l);
-            let _ = i;
-        }
-        // something traced afterwards, so that the negative level is rendered
-        let l = a.label();
-        a.jmp8(l);
-        a.b.push(0x90);
-        a.bind(l);
-        a.shape.push('R');
+    if unbalanced_at_end {
+        emit_unbalanced(&mut a, rng);
     }
     if o.fault_tail && rng.below(2) == 0 {
         has_fault_tail = true;
-        match rng.below(5) {
+        match rng.below(10) {
+            5 => a.b.extend_from_slice(&[0x31, 0xe4, 0xe8, 0, 0, 0, 0]), // xor esp,esp ; call next (return address cannot be pushed)
+            6 => {
+                // mov rax,&end ; xor esp,esp ; call rax (indirect call whose push faults)
+                a.mov_imm64(0, 0);
+                let pos = a.b.len() - 8;
+                ABS.with(|v| v.borrow_mut().push((pos, end)));
+                a.b.extend_from_slice(&[0x31, 0xe4, 0xff, 0xd0]);
+            }
+            7 => a.b.extend_from_slice(&[0xff, 0x14, 0x25, 0, 0, 0, 0]), // call [0] (target unreadable)
+            8 => a.b.extend_from_slice(&[0xff, 0x24, 0x25, 0, 0, 0, 0]), // jmp [0]
+            9 => a.b.extend_from_slice(&[0xbc, 0x08, 0, 0, 0, 0x50]),    // mov esp,8 ; push rax
             0 => a.b.extend_from_slice(&[0x48, 0x8b, 0x04, 0x25, 0x00, 0x00, 0x00, 0x00]), // mov rax,[0]
             1 => {
                 a.b.extend_from_slice(&[0x31, 0xc9, 0xf7, 0xf1]); // xor ecx,ecx ; div ecx
@@ -586,7 +620,8 @@ fn gen_prog_inner(rng: &mut Rng, o: &ProgOpts) -> Prog {
         }
     }
     let entry_off = if rng.below(3) == 0 { rng.range(1, 40) } else { 0 };
-    Prog { entry_off, code, init_gpr, init_flags, shape, ends_with_ret, has_fault_tail }
+    let stack_len = *rng.pick(&[0x2000u64, 0x2000, 0x2000, 0x2008, 0x1ff8, 0x1000, 0x1008, 0x808]);
+    Prog { entry_off, code, init_gpr, init_flags, shape, ends_with_ret, has_fault_tail, stack_len }
 }
 
 thread_local! {
@@ -616,7 +651,7 @@ pub fn build(p: &Prog, stack: bool) -> Result<Axecutor, String> {
         ax.reg_write_128(super::common::XMM[i as usize], (mix64(i + 77) as u128) << 64 | mix64(i + 99) as u128).map_err(|e| err_first_line(&e))?;
     }
     if stack {
-        ax.init_stack(0x2000).map_err(|e| err_first_line(&e))?;
+        ax.init_stack(p.stack_len).map_err(|e| err_first_line(&e))?;
     } else {
         ax.reg_write_64(SR::RSP, p.init_gpr[4]).map_err(|e| err_first_line(&e))?;
     }
